@@ -1217,6 +1217,9 @@ func (f *Frame) runAsserts(ord int, st *State, call *ast.CallExpr) {
 		f.assertHit[ord] = true
 	}
 	for i, a := range f.contract.Asserts[ord] {
+		if len(a.Props) > 0 && !hasProp(a.Props, currentProp) {
+			continue // property-tagged assertion: proved (and assumed) only under that property
+		}
 		env := f.specEnvAt(st, call.End())
 		goal := env.evalBool(a.E)
 		f.oblige(st, "assert", fmt.Sprintf("%s#call%d.assert:%d", f.key, ord, i+1), call.Pos(), goal, a.Text)
